@@ -71,6 +71,9 @@ def gen_case(rng: random.Random, tier: str) -> dict:
             ops.append({"op": "siblings", "depth": rng.choice([1, 1, 2, 2, "2map"]), "provide": rng.choice([None, None, "A_obj", "other"]), "sync": rng.random() < 0.5, "runner": rng.randrange(2), "x": rng.randint(0, 2), "cfg": gen.gen_async_cfg(rng), "outer_bind": rng.random() < 0.3})
         elif r < 0.12:
             ops.append({"op": "mapnode", "mo": rng.choice(["x", "xy"]), "renamed": rng.random() < 0.5, "clone": rng.choice([True, False, ["y"]]), "xs": [rng.randint(0, 3) for _ in range(rng.randint(1, 3))], "sync": rng.random() < 0.5, "runner": rng.randrange(2), "cfg": gen.gen_async_cfg(rng)})
+            if rng.random() < 0.3:
+                # the mapped list is left to a SIGNATURE DEFAULT whose items are mutable and are mutated by the function; run twice
+                ops[-1].update(defx=True, mo="x", renamed=False)
         elif r < 0.25:
             ops.append({"op": "sync", "g": rng.randrange(2), "runner": rng.randrange(2), "x": rng.randint(0, 2), "kw": rng.random() < 0.4, "ep": rng.random() < 0.3})
         elif r < 0.45:
@@ -110,10 +113,18 @@ def _mapnode_spec(clone, ren: bool, mo: str) -> dict:
                                          {"kind": "fn", "name": "mf", "params": [{"name": "x"}, {"name": "y"}, {"name": "cfgi"}], "outs": ["mo_o"]}], "order": [0]}}], "order": [0]}
 
 
-def _mapnode_alone(clone, ren: bool, mo: str, flav: str, inp: dict) -> list:
+def _mapdef_spec(clone) -> dict:
+    """A mapping node that maps over an input nobody supplies: the list is the inner function's signature default, its items are lists
+    the function appends to. Every run starts from the default as written."""
+    return {"name": "md", "nodes": [{"kind": "graph", "name": "mdp", "map_over": ["x"], "map_mode": "zip", "clone": clone if isinstance(clone, bool) else False,
+                                     "graph": {"name": "mdp", "nodes": [
+                                         {"kind": "fn", "name": "mdf", "params": [{"name": "y"}, {"name": "x", "default": [[1], [2]]}], "outs": ["md_o"], "beh": "snapshot", "beh_param": "x"}], "order": [0]}}], "order": [0]}
+
+
+def _mapnode_alone(clone, ren: bool, mo: str, flav: str, inp: dict, defx: bool = False) -> list:
     rt = Runtime(schedule={"mode": "delay", "seed": 0, "choices": [0]})
     with patched(rt):
-        graph, _ = build(_mapnode_spec(clone, ren, mo), rt, flav)
+        graph, _ = build(_mapdef_spec(clone) if defx else _mapnode_spec(clone, ren, mo), rt, flav)
         if flav == "sync":
             return _summ(call_sync(rt, lambda: make_runner("sync", rt).run(graph, inp)))
         return _summ(call_async(rt, [lambda: make_runner("async", rt).run(graph, inp)])[0])
@@ -144,6 +155,12 @@ class _Pool:
                         graph, comp = build(_mapnode_spec(clone, ren, mo), rt, flav)
                         self.comps.append(comp)
                         self.mapnode[(clone_key, flav, ren, mo)] = (graph, comp.nodes["mp"].graph.inputs.bound["cfgi"])
+        self.mapdef: dict[tuple, object] = {}
+        for clone in (True, False):
+            for flav in ("sync", "async"):
+                graph, comp = build(_mapdef_spec(clone), rt, flav)
+                self.comps.append(comp)
+                self.mapdef[(clone, flav)] = graph
         # two sibling nested graphs that each bind the SAME parameter name to their own object (two agents, each with its own client):
         # every function receives the object bound on ITS graph; an explicit binding on the enclosing graph overrides both
         self.siblings: dict[tuple, tuple] = {}
@@ -345,6 +362,22 @@ def run_case(doc: dict) -> dict:
                 flav = "sync" if op["sync"] else "async"
                 ck = "T" if op["clone"] is True else ("F" if op["clone"] is False else "L")
                 mo = op.get("mo", "x")
+                if op.get("defx"):
+                    g = pool.mapdef[(op["clone"] is True, flav)]
+                    for rep in range(2):
+                        inp = {"y": 5 + rep}
+                        if flav == "sync":
+                            rt.schedule = {}
+                            out = call_sync(rt, lambda: pool.sync_runners[op["runner"]].run(g, inp), call_id=f"op{oi}r{rep}")
+                        else:
+                            rt.schedule = op["cfg"]["schedule"]
+                            rt.decisions = []
+                            out = call_async(rt, [lambda: pool.async_runners[op["runner"]].run(g, inp)], shuffle_seed=op["cfg"].get("shuffle"), call_ids=[f"op{oi}r{rep}"])[0]
+                        exp = _mapnode_alone(op["clone"], False, "x", flav, dict(inp), defx=True)
+                        res["runs"] += 2
+                        _compare(f"{tag}[mapped_default,run{rep}]", _summ(out), exp, viol)
+                    res["stats"]["mapped_signature_default_ops"] = res["stats"].get("mapped_signature_default_ops", 0) + 1
+                    continue
                 g, bound_obj = pool.mapnode[(ck, flav, bool(op.get("renamed")), mo)]
                 inp = {"x": list(op["xs"]), "y": [5, 6]} if mo == "x" else {"x": list(op["xs"]), "y": [50 + j for j in range(len(op["xs"]))]}
                 h0 = len(rt.history)
